@@ -287,6 +287,26 @@ def run(ctx):
                 nsteps = int("".join(ch for ch in scen if ch.isdigit()))
                 for j in range(1, nsteps + 2):
                     jobs.append((scen, 0, 0, {"error", "warn"}, tmpdir, full, "raise", j))
+        # (A') code -> spec with drivers nobody wrote for this purpose: every file the repository's own tests write
+        suites = ["tests/coverage"] + ([] if quick else ["tests/physics"])
+        trf = os.path.join(tmpdir, "repo_traces.json")
+        env2 = dict(os.environ, VERIF_PTFILE_TRACES=trf, PYTHONPATH=core.VERIF + ":" + core.REPO, OMP_NUM_THREADS="1")
+        subprocess.run([core.PY, "-m", "pytest", "-q", "-p", "no:cacheprovider", "-p", "harness.ptfile_plugin", "-x"] + suites,
+                       cwd=core.REPO, env=env2, stdout=subprocess.PIPE, stderr=subprocess.STDOUT, timeout=3000, check=False)
+        repo_traces = [t for t in (json.load(open(trf)) if os.path.exists(trf) else []) if t["events"]]
+        if not repo_traces:
+            raise core.MachineryError("no process-tensor file was written while the repository's tests ran")
+        for ti, t in enumerate(repo_traces):
+            tr = os.path.join(tmpdir, "repo_%d.json" % ti)
+            json.dump(t["events"], open(tr, "w"))
+            for cfg_, what in ((CFG_CONF, "trace"), (CFG_CRASH, "model")):
+                rr = ctx.tlc("PTFile", cfg_, label="repository tests, file %s (%d operations): %s" % (t["file"], len(t["events"]), what),
+                             constants={"Devs": "{}", "Emit": "FALSE"}, workers=2, env={"TRACE_FILE": tr}, must_hold=False)
+                if not rr.ok:
+                    why = rr.violated or "trace not accepted"
+                    ctx.violation("C17:repo-tests:%s:%s" % (what, why), "file %s written by the repository's tests: %s" % (t["file"], why),
+                                  {"scenario": "repo-tests", "events": t["events"]})
+            ctx.case({"scenario": "repository tests", "file": t["file"], "trace_events": len(t["events"])})
         res = core.pmap(crash_job, jobs, chunksize=2)
         for job, mm in zip(jobs, res):
             scen, k, f = job[0], job[1], job[2]
